@@ -3,8 +3,9 @@
 set -e
 cd "$(dirname "$0")"
 export CARGO_NET_OFFLINE=true
-( cd sim && cargo build --offline --profile dbg --message-format=short 2>&1 | grep -E "^error|^src/.*error|Finished" || true )
-( cd sim && cargo build --offline --profile rel --message-format=short 2>&1 | grep -E "^error|^src/.*error|Finished" || true )
-test -x sim/target/dbg/sim && test -x sim/target/rel/sim
-sim/target/dbg/sim refint-selftest --seed 7 --n 3000 | python3 tools/refint_check.py
+( cd sim && cargo build --offline --profile dbg --target-dir target/t-dbg --message-format=short 2>&1 | grep -E "^error|^src/.*error|Finished" || true ) &
+( cd sim && cargo build --offline --profile rel --target-dir target/t-rel --message-format=short 2>&1 | grep -E "^error|^src/.*error|Finished" || true ) &
+wait
+test -x sim/target/t-dbg/dbg/sim && test -x sim/target/t-rel/rel/sim
+sim/target/t-dbg/dbg/sim refint-selftest --seed 7 --n 3000 | python3 tools/refint_check.py
 echo "setup ok"
